@@ -8,7 +8,7 @@ REPO_NAMES = ['aapl', 'msft', 'brk-b', 'brk.b', 'A', 'cvs', 'msft.us', 'v']   # 
 
 
 # ------------------------------------------------------------------------------------------ C10
-def gen_repo_history(rng, n):
+def gen_repo_history(rng, n, impl='mem'):
     ops = []
     day = {k: rng.randrange(0, 50) for k in REPO_NAMES}
     backfill = rng.random() < 0.4      # histories in which older days are appended after newer ones
@@ -35,6 +35,11 @@ def gen_repo_history(rng, n):
             touched.add(name)
         elif r < 0.58:
             ops.append('g:%s' % name)
+        elif r < 0.62 and impl in ('fs', 'fsw') and name in touched:
+            ops.append('L:%s' % name)          # the asset's file becomes a symbolic link to a file kept elsewhere
+        elif r < 0.67 and impl != 'sql':
+            # a bound with a time of day (the SQL repository presupposes whole-day bounds)
+            ops.append('S:%s:%d' % (name, max(0, day[name] + rng.randrange(-12 if backfill else -6, 3))))
         elif r < 0.75:
             ops.append('s:%s:%d' % (name, max(0, day[name] + rng.randrange(-12 if backfill else -6, 3))))
         elif r < 0.9:
@@ -69,6 +74,10 @@ def py_repo(ops):
             out.append('err' if f[1] not in store else 'ok:' + ','.join('%d.%d' % x for x in store[f[1]]))
         elif f[0] == 's':
             out.append('err' if f[1] not in store else 'ok:' + ','.join('%d.%d' % x for x in store[f[1]] if x[0] >= int(f[2])))
+        elif f[0] == 'S':
+            out.append('err' if f[1] not in store else 'ok:' + ','.join('%d.%d' % x for x in store[f[1]] if x[0] > int(f[2])))
+        elif f[0] == 'L':
+            out.append('ok')
         elif f[0] == 'l':
             out.append('err' if not store.get(f[1]) else 'ok:%d' % store[f[1]][-1][0])
         elif f[0] == 'A':
@@ -91,9 +100,18 @@ def check_c10(res, tier, replay):
     else:
         for impl in ('mem', 'fs', 'sql', 'fsw'):     # fsw: the file-system repository in a process whose local zone is west of UTC
             for _ in range(nh if impl != 'fsw' else max(10, nh // 4)):
-                hist.append((impl, gen_repo_history(rng, rng.randrange(1, hl))))
+                hist.append((impl, gen_repo_history(rng, rng.randrange(1, hl), impl)))
     lines = ['r%d REPO %s %s' % (i, impl, ';'.join(ops)) for i, (impl, ops) in enumerate(hist)]
-    go, model = vlib.run_go(lines), vlib.run_model(lines)
+
+    def for_model(op):
+        # the model has whole days only: a bound inside day d selects the days after d
+        f = op.split(':')
+        if f[0] == 'S':
+            return 's:%s:%d' % (f[1], int(f[2]) + 1)
+        return op
+    go = vlib.run_go(lines)
+    # (a file that became a symbolic link is the same asset: the model does not see the operation at all)
+    model = vlib.run_model(['r%d REPO %s %s' % (i, impl, ';'.join(for_model(o) for o in ops if not o.startswith('L:')) or 'A') for i, (impl, ops) in enumerate(hist)])
     mism = bad = nobs = 0
     known = collections.Counter()
     cells = set()
@@ -101,7 +119,11 @@ def check_c10(res, tier, replay):
     for i, (impl, ops) in enumerate(hist):
         g, m = go.get('r%d' % i, 'missing'), model.get('r%d' % i, 'missing')
         cells.add((impl, min(len(ops) // 5, 10)))
-        if g != m:
+        gm = g
+        if g.startswith('ok ') and any(o.startswith('L:') for o in ops):
+            kept = [x for x, o in zip(g[3:].split(';'), ops) if not o.startswith('L:')]
+            gm = 'ok ' + ';'.join(kept) if kept else m
+        if gm != m:
             mism += 1
             res.violation({'broken': 'correspondence', 'name': 'REPO ' + impl, 'cases': [{'impl': impl, 'ops': ops}],
                            'go_output': g[:600], 'model_output': m[:600]}, True)
@@ -349,9 +371,17 @@ def check_c12(res, tier, replay):
             runs = rng.choice([1, 2, 2, 3])
             if (fs != '-' or ft != '-') and rng.random() < 0.6:
                 runs = 1          # with a single run the effect of an injected fault on the OTHER assets stays visible
-            cases.append((workers, rng.randrange(0, 30), assets, fs, ft, impl, runs, src_spec, tgt_spec))
+            dd = rng.randrange(0, 30)
+            # a default start date with a time of day (what cmd/indicator-sync passes): "<day>h"
+            cases.append((workers, ('%dh' % dd) if rng.random() < 0.3 else dd, assets, fs, ft, impl, runs, src_spec, tgt_spec))
     lines = ['y%d SYNC %s' % (i, ' '.join(map(str, c))) for i, c in enumerate(cases)]
-    go, model = vlib.run_go(lines), vlib.run_model(lines)
+
+    def sync_model_line(c):
+        c = list(c)
+        if str(c[1]).endswith('h'):
+            c[1] = int(str(c[1])[:-1]) + 1       # whole days in the model: a start inside day d selects the days after d
+        return ' '.join(map(str, c))
+    go, model = vlib.run_go(lines), vlib.run_model(['y%d SYNC %s' % (i, sync_model_line(c)) for i, c in enumerate(cases)])
     # the same cases under the race detector (-race build of the harness)
     okr, msgr = vlib.build_harness(race=True)
     race_reports = 0
@@ -364,7 +394,7 @@ def check_c12(res, tier, replay):
     cells = set()
     for i, c in enumerate(cases):
         g, m = go.get('y%d' % i, 'missing'), model.get('y%d' % i, 'missing')
-        exp = py_sync(c[1], c[2], set(c[3].split(',')) if c[3] != '-' else set(), set(c[4].split(',')) if c[4] != '-' else set(), c[6], c[7], c[8])
+        exp = py_sync((int(str(c[1])[:-1]) + 1) if str(c[1]).endswith('h') else c[1], c[2], set(c[3].split(',')) if c[3] != '-' else set(), set(c[4].split(',')) if c[4] != '-' else set(), c[6], c[7], c[8])
         cells.add((c[0], c[2] == '-', c[3] != '-', c[4] != '-', c[5], c[6]))
         if g != exp:
             bad += 1
